@@ -89,6 +89,24 @@ func (e *explorer) runDef(fam string, def m.Def, inputs []string) {
 			}
 			rr["ExtraState"] = []lexer.Rule{{Name: "X", Pattern: "x"}}
 		}
+		// results of direct MarshalJSON calls belong to the caller: a later call does not rewrite them
+		{
+			b1, err1 := d.MarshalJSON()
+			s1 := string(b1)
+			var later [][]byte
+			for _, rs := range def.ToRules() {
+				for _, r := range rs {
+					if b, err := r.MarshalJSON(); err == nil {
+						later = append(later, b)
+					}
+				}
+			}
+			b2, _ := d.MarshalJSON()
+			if err1 == nil && (string(b1) != s1 || string(b2) != s1) {
+				w.Violate(hx.Violation{Key: key(fam, def, "") + " :: MarshalJSON called directly, result kept", Class: "roundtrip-failed", Detail: map[string]any{"stage": "the bytes returned by MarshalJSON changed after later MarshalJSON calls", "when_returned": s1, "now": string(b1), "second_call": string(b2)}})
+			}
+			_ = later
+		}
 		for i, src := range []func() ([]byte, error){
 			func() ([]byte, error) { return json.Marshal(d) },
 			func() ([]byte, error) { return json.Marshal(def.ToRules()) },
@@ -170,6 +188,9 @@ func (e *explorer) runDef(fam string, def m.Def, inputs []string) {
 		var picks []string
 		if len(inputs) > 0 {
 			picks = append(picks, inputs[len(inputs)-1], inputs[len(inputs)/2], inputs[len(inputs)/3])
+		}
+		if len(picks) > 0 {
+			picks = append(picks, "\ufeff"+picks[0]) // a byte order mark is text like any other
 		}
 		for _, in := range picks {
 			want := runString(lexdrive.Drive(d, "f.txt", in, 0))
